@@ -174,10 +174,21 @@ func c02Run(raw []byte) (*Line, error) {
 	return l, nil
 }
 
+var c02Extremes = []float64{
+	1 << 62, -(1 << 62), 1 << 63, -(1 << 63), 1 << 61, 1<<62 - 512, 1<<63 + 2048, 1 << 31, 1 << 32, -(1 << 31),
+	1e19, -1e19, 1e300, -1e300, math.MaxFloat64, -math.MaxFloat64, 4.611686018427388e18, 9.223372036854776e18,
+	1e15 + 0.5, 1e9,
+}
+
 // half-integer grid from -1 to n1*n2+1, or a subsample of it with the ends kept
 func c02Grid(rng *rand.Rand, n1, n2, maxPts int) []F64 {
 	top := 2*(n1*n2) + 2
+	// "for every real u": far outside the support CDF is 0 / 1 and PMF is 0 — also where 2u no
+	// longer fits an int (2^62, 2^63, 1e19) or a float (MaxFloat64); four of these per case
 	var us []F64
+	for j := 0; j < 4; j++ {
+		us = append(us, F64(c02Extremes[rng.Intn(len(c02Extremes))]))
+	}
 	if top+3 <= maxPts {
 		for k := -2; k <= top; k++ {
 			us = append(us, F64(float64(k)/2))
